@@ -336,7 +336,7 @@ static void one_case(void) {
   unsigned op = rnd(100);
   if (op < 45) {
     sb_begin("ev", "sgn"); sb_sp(); sb_poly(p); sb_sp(); sb_asg(); sb_arrow();
-    with_order(reversed); int s = lp_polynomial_sgn(p, M); with_order(reversed);
+    with_order(reversed); int s = chance(60) ? lp_polynomial_sgn(p, M) : lp_assignment_sgn(M, p); with_order(reversed);
     sb_sp(); sb_long(s); sb_emit();
   } else if (op < 80) {
     sb_begin("ev", "value"); sb_sp(); sb_poly(p); sb_sp(); sb_asg(); sb_arrow();
